@@ -12,6 +12,7 @@ import (
 	"math"
 	"sort"
 	"strings"
+	"time"
 
 	"google.golang.org/protobuf/encoding/protojson"
 	"google.golang.org/protobuf/encoding/protowire"
@@ -50,6 +51,7 @@ type step struct {
 	http  *httpReq
 	heavy bool
 	note  string
+	limit time.Duration // overrides the deadline-overrun limit (before load scaling)
 	// after a successful response: extract something for later steps
 	after func(resp proto.Message, env *caseEnv)
 	// build lazily from what earlier steps produced
@@ -427,7 +429,7 @@ func direct(types ...string) *openfgav1.RelationMetadata {
 
 var modelDepths = []int{10, 24, 25, 26, 100, 1000, 2000, 3300, 3400, 5000, 10000}
 
-const nModelShapes = 24
+const nModelShapes = 26
 
 // hostileModel returns a WriteAuthorizationModelRequest for the scratch store
 func hostileModel(fx *fixture, r *prng, v int) (*openfgav1.WriteAuthorizationModelRequest, string) {
@@ -611,6 +613,25 @@ func hostileModel(fx *fixture, r *prng, v int) (*openfgav1.WriteAuthorizationMod
 		doc.Metadata.SourceInfo = &openfgav1.SourceInfo{File: hostileStringValid(r)}
 		doc.Metadata.Relations["viewer"].Module = strings.Repeat("m", rec.Pick(r, []int{50, 51, 100000}))
 		note = "metadata strings"
+	case 23, 24: // directly assignable usersets forming a loop across two or three types
+		team := &openfgav1.TypeDefinition{Type: "team", Relations: map[string]*openfgav1.Userset{"member": this()},
+			Metadata: &openfgav1.Metadata{Relations: map[string]*openfgav1.RelationMetadata{"member": direct("org#admin", "user")}}}
+		org := &openfgav1.TypeDefinition{Type: "org", Relations: map[string]*openfgav1.Userset{"admin": this()},
+			Metadata: &openfgav1.Metadata{Relations: map[string]*openfgav1.RelationMetadata{"admin": direct("team#member")}}}
+		note = "cross-type userset loop team#member <-> org#admin (valid)"
+		if shape == 24 { // no terminal type anywhere: must be rejected (no entrypoints), not looped over
+			team.Metadata.Relations["member"] = direct("org#admin")
+			note = "cross-type userset loop without entrypoint"
+		}
+		if depth >= 1000 { // a longer ring through a third type
+			dept := &openfgav1.TypeDefinition{Type: "dept", Relations: map[string]*openfgav1.Userset{"lead": this()},
+				Metadata: &openfgav1.Metadata{Relations: map[string]*openfgav1.RelationMetadata{"lead": direct("team#member")}}}
+			org.Metadata.Relations["admin"] = direct("dept#lead")
+			req.TypeDefinitions = append(req.TypeDefinitions, dept)
+			note += " through three types"
+		}
+		doc.Metadata.Relations["viewer"] = direct("user", "team#member")
+		req.TypeDefinitions = append(req.TypeDefinitions, team, org)
 	default: // the valid base model again (control)
 		m := parser.MustTransformDSLToProto(baseDSL)
 		req.TypeDefinitions, req.Conditions = m.GetTypeDefinitions(), m.GetConditions()
@@ -1172,6 +1193,43 @@ func init() {
 			}
 			return built{steps: []step{oneStep(rpc, m, nil, name+" "+note)}, stats: []string{"ctx_nest:" + name}}
 		}},
+		{name: "ctx_empty", variants: 10, weight: 2, build: func(fx *fixture, r *prng, v int) built {
+			// a context that is PRESENT but empty on the wire, against tuples that carry their own
+			// condition context (stored: group:ip, document:4, document:5; or contextual)
+			names := []string{"Check", "BatchCheck", "ListObjects", "ListUsers", "StreamedListObjects"}
+			k := v
+			if v < 0 {
+				k = r.Intn(10)
+			}
+			name := names[k%5]
+			withCT := k >= 5
+			rpc := rpcByName(name)
+			empty := &structpb.Struct{}
+			var ct []*openfgav1.TupleKey
+			if withCT {
+				ct = []*openfgav1.TupleKey{tkc("document:9", "viewer", "user:*", "cond_str", map[string]any{"s": "abc"})}
+			}
+			var m proto.Message
+			switch name {
+			case "Check":
+				m = &openfgav1.CheckRequest{StoreId: fx.store, AuthorizationModelId: fx.model, Context: empty, ContextualTuples: &openfgav1.ContextualTupleKeys{TupleKeys: ct},
+					TupleKey: &openfgav1.CheckRequestTupleKey{Object: map[bool]string{false: "document:4", true: "document:9"}[withCT], Relation: "viewer", User: "user:zed"}}
+			case "BatchCheck":
+				m = &openfgav1.BatchCheckRequest{StoreId: fx.store, AuthorizationModelId: fx.model, Checks: []*openfgav1.BatchCheckItem{
+					{CorrelationId: "a", Context: empty, ContextualTuples: &openfgav1.ContextualTupleKeys{TupleKeys: ct}, TupleKey: &openfgav1.CheckRequestTupleKey{Object: "group:ip", Relation: "member", User: "user:ivy"}},
+					{CorrelationId: "b", Context: empty, TupleKey: &openfgav1.CheckRequestTupleKey{Object: "document:4", Relation: "viewer", User: "user:zed"}}}}
+			case "ListObjects":
+				m = &openfgav1.ListObjectsRequest{StoreId: fx.store, AuthorizationModelId: fx.model, Context: empty, ContextualTuples: &openfgav1.ContextualTupleKeys{TupleKeys: ct},
+					Type: "document", Relation: "viewer", User: "user:zed"}
+			case "StreamedListObjects":
+				m = &openfgav1.StreamedListObjectsRequest{StoreId: fx.store, AuthorizationModelId: fx.model, Context: empty, ContextualTuples: &openfgav1.ContextualTupleKeys{TupleKeys: ct},
+					Type: "group", Relation: "member", User: "user:ivy"}
+			default:
+				m = &openfgav1.ListUsersRequest{StoreId: fx.store, AuthorizationModelId: fx.model, Context: empty, ContextualTuples: ct,
+					Object: &openfgav1.Object{Type: "document", Id: "4"}, Relation: "viewer", UserFilters: []*openfgav1.UserTypeFilter{{Type: "user"}}}
+			}
+			return built{steps: []step{oneStep(rpc, m, nil, fmt.Sprintf("%s with context {} (present, empty), contextual conditioned tuple=%v", name, withCT))}, stats: []string{"ctx_empty:" + name}}
+		}},
 		{name: "ctuples", weight: 6, build: func(fx *fixture, r *prng, v int) built {
 			name := rec.Pick(r, []string{"Check", "ListObjects", "ListUsers", "Expand", "BatchCheck"})
 			rpc := rpcByName(name)
@@ -1270,7 +1328,7 @@ func init() {
 				env.modelID = resp.(*openfgav1.WriteAuthorizationModelResponse).GetAuthorizationModelId()
 			}
 			// when the model was accepted: query it
-			rels := []string{"deep", "viewer", "a", "r0", "q0", "e0", "n1", "u1", "bare"}
+			rels := []string{"deep", "viewer", "a", "r0", "q0", "e0", "n1", "u1", "bare", "viewer"}
 			var follow []step
 			for _, fn := range []string{"Check", "ListObjects", "ListUsers", "Expand", "ReadAuthorizationModel"} {
 				fn := fn
@@ -1371,4 +1429,6 @@ func init() {
 		}},
 	}
 	generators = append(generators, directGenerators()...)
+	// fault injection below the handlers (fault.go); the child handles it outside build()
+	generators = append(generators, &generator{name: "fault", variants: nFaultVariants(), weight: 7})
 }
